@@ -93,4 +93,6 @@ def run(seed=0, rounds=40):
         lst = [rnd.choice("abc") for _ in range(n)]
         ok("list.index", all(lst.index(t) == min(i for i, u in enumerate(lst) if u == t) for t in set(lst)))
         ok("str.split", "a.b.c".split(".") == ["a", "b", "c"] and "abc".split(".") == ["abc"])
+    from ..pyvc.chars import validate_class_axioms
+    ok("character-class axioms (all code points < 0x3000)", not validate_class_axioms())
     return n_checks, fails
